@@ -845,4 +845,27 @@ theorem construct_some_ranInit {V : Type} (cv : Conv V) (numId : Nat) (rules : L
           · simp [hn] at hc
           · simp [hn]
 
+theorem keyEmpty_of_blank : ∀ (l : List Src), (∀ s ∈ l, ∃ c, s = .cell c ∧ c.val = .blank) →
+    keyEmpty l = .ok true := by
+  intro l
+  induction l with
+  | nil => intro _; rfl
+  | cons a as ih =>
+    intro h
+    obtain ⟨c, hc, hb⟩ := h a (by simp)
+    subst hc
+    simp only [keyEmpty, hb, if_true]
+    exact ih (fun s hs => h s (by simp [hs]))
+
+/-- a row whose key cells are all blank is answered with `None` before anything is converted -/
+theorem construct_keyless {V : Type} (cv : Conv V) (numId : Nat) (rules : List (Rule V))
+    (slots : List Slot) (k : Nat) (row : Row) (srcs : List Src)
+    (hs : mapE (srcOf row) slots = .ok srcs) (hn : 0 < numId)
+    (hb : ∀ s ∈ srcs.take numId, ∃ c, s = .cell c ∧ c.val = .blank) :
+    construct cv numId rules slots k row = .ok none := by
+  unfold construct
+  rw [hs]
+  simp only [keyEmpty_of_blank _ hb]
+  simp [hn]
+
 end Xls
